@@ -182,7 +182,12 @@ where
     unsafe fn span(eoi: &mut Self::Cache, range: Range<&Self::Cursor>) -> Self::Span {
         match range.start.0.clone().next() {
             Some((_, s)) => {
-                let end = range.end.2.clone().unwrap_or_else(|| eoi.end());
+                // An empty range lies between two tokens (or before the first): its span is empty too
+                let end = if range.start.1 == range.end.1 {
+                    s.start()
+                } else {
+                    range.end.2.clone().unwrap_or_else(|| eoi.end())
+                };
                 S::new(eoi.context(), s.start()..end)
             }
             None => S::new(eoi.context(), eoi.end()..eoi.end()),
